@@ -170,6 +170,8 @@ def tlc(cwd, module, cfg, workers=None, simulate=None, depth=None, tlcseed=None,
         shutil.rmtree(meta, ignore_errors=True)
     r = TLCResult(p.returncode, p.stdout, time.time() - t0)
     r.timed_out = False
+    if p.returncode in (-9, 137, 134, -6):
+        raise Inconclusive("TLC was killed (exit %d) on %s/%s: out of memory?\n%s" % (p.returncode, module, cfg, p.stdout[-1000:]))
     if "java.lang.OutOfMemoryError" in p.stdout or "StackOverflowError" in p.stdout:
         raise Inconclusive("TLC resource failure on %s/%s:\n%s" % (module, cfg, p.stdout[-2000:]))
     if "Parsing or semantic analysis failed" in p.stdout or "was not found" in p.stdout and "Error" in p.stdout and r.generated == 0:
@@ -203,7 +205,9 @@ def _validate_one(cwd, module, cfg, trace_lines, env, idx, timeout):
         f.write("\n".join(trace_lines) + "\n")
     e = dict(env or {})
     e["TRACE"] = tp
-    r = tlc(cwd, module, cfg, workers=1, env=e, timeout=timeout)
+    # NCPU of these run at once: a bounded heap each keeps the sum inside the machine's memory (an unbounded JVM takes a
+    # quarter of it and the kernel kills one of them)
+    r = tlc(cwd, module, cfg, workers=1, env=e, timeout=timeout, heap=os.environ.get("VERIF_TRACE_HEAP", "3g"))
     n = len(trace_lines)
     consumed = None
     for s in r.printed("CONSUMED"):
